@@ -173,6 +173,8 @@ def get_attr(I, obj, attr, node, frame=None):
         if 'raw' in obj.extra:
             return obj.extra['raw']
         return unpack_raw(I, obj.extra['rawterm'], obj.extra.get('rawkinds'))
+    if attr in ('__eq__', '__ne__', '__lt__', '__le__', '__gt__', '__ge__') and k in ('int', 'bool', 'real', 'str', 'bytes'):
+        return SV('func', BuiltinRef('dunder:' + attr, obj))
     if k in ('int', 'bool') and attr in ('to_bytes', 'from_bytes', 'bit_length'):
         return SV('func', BuiltinRef('int.' + attr, obj))
     if k == 'real' and attr == 'is_integer':
@@ -237,16 +239,19 @@ def unpack_raw(I, rawterm, kinds=None):
     return SV(k, TY.RAW_KINDS[k][2](rawterm))
 
 
-def unpack_pval(I, term, kinds=None):
+def unpack_pval(I, term, kinds=None, rawkinds=None):
     names = list(kinds) if kinds else list(TY.PVAL_KINDS)
     names = [n if isinstance(n, str) else n[0] for n in names]
     conds = [TY.PVAL_KINDS[n][2](term) for n in names]
-    if I.spec:
-        raise OutOfSubset("pval unpack in spec")
+    if kinds:
+        # the contract's parameter type restricts the value classes stored in the packet (a type invariant of the input)
+        I.path.assume(z3.Or(*conds))
     ch = I.path.branch(len(names), conds)
     n = names[ch]
     base, ctor, rec, val, rawf = TY.PVAL_KINDS[n]
-    return SV(base, val(term), cls=n, extra={'rawterm': rawf(term)})
+    if rawkinds:
+        I.path.assume(z3.Or(*[TY.RAW_KINDS[k][1](rawf(term)) for k in rawkinds]))
+    return SV(base, val(term), cls=n, extra={'rawterm': rawf(term), 'rawkinds': rawkinds})
 
 
 # ---- ordered packet mapping ----------------------------------------------------------------------------------------
@@ -288,8 +293,10 @@ def get_item(I, obj, key, node):
         if not I.spec:
             if not I.path.decide(z3.Select(od.t['has'], key.t)):
                 I.raise_('KeyError', node)
-        return unpack_pval(I, z3.Select(od.t['val'], key.t), od.extra.get('kinds') if od.extra else None) \
-            if not I.spec else SV('pvalterm', z3.Select(od.t['val'], key.t))
+        if I.spec and getattr(I, 'in_quant', False):
+            return SV('pvalterm', z3.Select(od.t['val'], key.t))
+        return unpack_pval(I, z3.Select(od.t['val'], key.t), od.extra.get('kinds') if od.extra else None,
+                           od.extra.get('rawkinds') if od.extra else None)
     if obj.kind in ('clist', 'tuple'):
         ci = const_int(as_int_term(key)) if key.kind in ('int', 'bool') else None
         if ci is None:
